@@ -459,7 +459,11 @@ func (state *RuntimeState) validateUserTOTP(username string, OTPValue int, t tim
 	userRateLimit.failCount++
 	//every 5th bad try, make it wait an extra hour
 	if userRateLimit.failCount%numFailedTOTPChecksForTimeoutIncrease == 0 {
-		userRateLimit.lockoutExpirationTime.Add(time.Duration(3600) * time.Second)
+		// time.Time.Add returns the new value: one more hour of lock-out for
+		// every completed round of failures.
+		rounds := userRateLimit.failCount / numFailedTOTPChecksForTimeoutIncrease
+		userRateLimit.lockoutExpirationTime = time.Now().Add(
+			time.Duration(3600*rounds) * time.Second)
 	}
 	userRateLimit.lastFailTime = time.Now()
 	state.totpLocalTateLimitMutex.Lock()
